@@ -321,6 +321,16 @@ pub fn drive(args: &HashMap<String, String>) {
                 inputs.push(("structured-soup".into(), format!("(mod (X) (include {}) {} (m X))", sig[i % sig.len()], forms.join(" ")).into_bytes()));
             }
         }
+        // the defmac-only functions with arguments of the wrong kind or out of range
+        for body in ["(substring \"abc\" 1 10)", "(substring \"abc\" 5 2)", "(substring \"abc\" 4 4)", "(substring \"abc\" 3 3)", "(substring \"\" 0 1)", "(substring 5 0 1)", "(substring \"abc\" -1 2)",
+            "(substring \"abc\" \"a\" 2)", "(string->number \"zz\")", "(string->number \"\")", "(number->string \"a\")", "(number->string ())", "(string-append 1 2)", "(string-append \"a\" 5)",
+            "(string-length 5)", "(string-length ())", "(symbol->string 5)", "(symbol->string \"s\")", "(string->symbol 5)", "(string->symbol \"\")", "(string? (q . (1 2)))", "(number? \"5\")", "(symbol? ())",
+            "(substring (string-append \"ab\" \"cd\") 2 9)", "(string->symbol (substring \"abcdef\" 2 99))"] {
+            for sig in ["*standard-cl-23*", "*standard-cl-24*"] {
+                inputs.push(("defmac-functions".into(), format!("(mod (X) (include {sig}) (defmac m () {body}) (m))").into_bytes()));
+                inputs.push(("defmac-functions".into(), format!("(mod (X) (include {sig}) (defmac m (A) (qq (c (unquote A) (unquote {body})))) (m X))").into_bytes()));
+            }
+        }
         // definition forms with a slot of the wrong kind, one by one
         for kw in ["defun", "defun-inline", "defmacro", "defmac", "defconstant", "defconst"] {
             for shape in ["({kw} (a) 1)", "({kw} a)", "({kw})", "({kw} a . 1)", "({kw} a 1 . 2)", "({kw} \"s\" (X) X)", "({kw} 1 (X) X)", "({kw} m () (qq (m)))", "({kw} m () (string?))", "({kw} m (X) (substring X 1))"] {
